@@ -24,6 +24,9 @@ func (area) Name() string { return "mdmerge" }
 // generators also produce zero-length entries in single-field blocks)
 var scannerTolerant bool
 
+// silentFamilies: families opened while it is set emit no protocol lines
+var silentFamilies bool
+
 // failRemap lets a witness case report the generic oracle failures of its known shape under the
 // recorded finding's stable key.
 var failRemap func(key string, series uint32) string
@@ -123,7 +126,7 @@ func genSlotPlan(r *rand.Rand) slotPlan {
 
 // genBlock builds one flushed block of the metric: a subset of the schema's fields (in random
 // stored order), a sub-range of the slot window, a subset of the series pool.
-func genBlock(r *rand.Rand, sc schema, pool []uint32, sp slotPlan, mode int) *Block {
+func genBlock(r *rand.Rand, sc schema, pool []uint32, sp slotPlan, mode int, never ...map[uint32]map[int]bool) *Block {
 	b := &Block{}
 	// fields: subset, random order
 	perm := r.Perm(len(sc.fields))
@@ -164,8 +167,17 @@ func genBlock(r *rand.Rand, sc schema, pool []uint32, sp slotPlan, mode int) *Bl
 	density := []int{1, 2, 4, 9}[r.Intn(4)]
 	for _, i := range sidx {
 		e := SeriesEntry{ID: pool[i], Fields: map[int]map[int]int64{}}
+		skipSeries := false
 		for _, f := range b.Fields {
 			c := r.Intn(10)
+			if len(never) > 0 && never[0][pool[i]][f.ID] {
+				// this series never reports this field (in any file of the case)
+				if len(b.Fields) > 1 || scannerTolerant {
+					continue
+				}
+				skipSeries = true
+				break
+			}
 			if c == 0 && (len(b.Fields) > 1 || scannerTolerant) {
 				// FlushField(nil): memdb does this for a field the series has no page for. With a
 				// single field the series entry would be zero bytes long, which a memory database
@@ -188,9 +200,42 @@ func genBlock(r *rand.Rand, sc schema, pool []uint32, sp slotPlan, mode int) *Bl
 			}
 			e.Fields[f.ID] = vals
 		}
+		if skipSeries {
+			continue
+		}
+		b.Series = append(b.Series, e)
+	}
+	if len(b.Series) == 0 {
+		// keep at least one series (the first of the pool, with whatever it may report)
+		e := SeriesEntry{ID: pool[sidx[0]], Fields: map[int]map[int]int64{}}
+		for _, f := range b.Fields {
+			if len(never) > 0 && never[0][e.ID][f.ID] && (len(b.Fields) > 1 || scannerTolerant) {
+				continue
+			}
+			e.Fields[f.ID] = map[int]int64{b.Start: int64(r.Intn(100))}
+		}
 		b.Series = append(b.Series, e)
 	}
 	return b
+}
+
+// genNever picks, for about a third of the series, one field of the metric the series never
+// reports in any block of the case (series of one metric reporting different field subsets; a
+// field that exists only in files the series does not occur in).
+func genNever(r *rand.Rand, sc schema, pool []uint32) map[uint32]map[int]bool {
+	never := map[uint32]map[int]bool{}
+	if len(sc.fields) < 2 {
+		return never
+	}
+	for _, s := range pool {
+		if r.Intn(3) == 0 {
+			never[s] = map[int]bool{sc.fields[r.Intn(len(sc.fields))].ID: true}
+			if len(sc.fields) > 2 && r.Intn(3) == 0 {
+				never[s][sc.fields[r.Intn(len(sc.fields))].ID] = true
+			}
+		}
+	}
+	return never
 }
 
 // ---------------------------------------------------------------- case: direct merger calls
@@ -206,55 +251,23 @@ func (area) runMergeCase(c *core.Ctx, r *rand.Rand) {
 	if sp.wide {
 		c.Branch("merge/slots>360")
 	}
+	var never map[uint32]map[int]bool
+	if r.Intn(2) == 0 {
+		never = genNever(r, sc, pool)
+		if len(never) > 0 {
+			c.Branch("merge/series-never-reports-a-field")
+		}
+	}
 	rounds := 1 + r.Intn(3)
 	for round := 0; round < rounds; round++ {
 		n := 1 + r.Intn(5)
 		mode := r.Intn(3)
 		var blocks []*Block
-		var datas [][]byte
-		var words []string
 		for i := 0; i < n; i++ {
-			b := genBlock(r, sc, pool, sp, mode)
-			d, err := buildBlockBytes(7, b)
-			if err != nil {
-				c.Fail("harness-build-block", err.Error())
-				return
-			}
-			if len(d) == 0 {
-				// every series was dropped? (cannot happen: each series flushes all fields)
-				c.Fail("harness-empty-block", b.String())
-				return
-			}
-			blocks = append(blocks, b)
-			datas = append(datas, d)
-			words = append(words, b.String())
+			blocks = append(blocks, genBlock(r, sc, pool, sp, mode, never))
 		}
 		c.Branch(fmt.Sprintf("merge/inputs=%d", n))
-		op := "merge " + strings.Join(words, " ")
-		var merged *Block
-		c.Guard(op, func() string {
-			nop := kv.NewNopFlusher()
-			m, err := metricsdata.NewMerger(nop)
-			if err != nil {
-				return "err new-merger"
-			}
-			if err := m.Merge(7, datas); err != nil {
-				c.Fail("merge-error", err.Error())
-				return "err merge"
-			}
-			out := append([]byte(nil), nop.Bytes()...)
-			mb, err := decodeBlock(out)
-			if err != nil {
-				c.Fail("decode-merged", err.Error())
-				return "err decode"
-			}
-			merged = mb
-			return "ok " + mb.Canonical().String()
-		})
-		if merged != nil {
-			checkMerged(c, blocks, merged)
-			c.NonTrivial()
-		}
+		mergeOp(c, blocks)
 	}
 }
 
@@ -281,6 +294,10 @@ func mergeOp(c *core.Ctx, blocks []*Block) {
 		if err := m.Merge(7, datas); err != nil {
 			failSeries(c, "merge-error", 0, err.Error())
 			return "err merge"
+		}
+		if len(nop.Bytes()) == 0 {
+			c.Fail("merge-output-empty", fmt.Sprintf("Merge of %d blocks with series wrote a 0-byte block (every series dropped)", len(blocks)))
+			return "err empty"
 		}
 		mb, err := decodeBlock(append([]byte(nil), nop.Bytes()...))
 		if err != nil {
@@ -417,6 +434,23 @@ type famCase struct {
 	allFree bool // no first/last field anywhere
 	// failKey: the stable key under which a compaction failure of THIS case's known shape is reported
 	failKey string
+	// silent: no protocol lines (regions without model counterpart: only the impl-side oracle speaks)
+	silent bool
+}
+
+// guard runs one operation: mirrored as a protocol line, or silently with the panic turned into an
+// oracle failure.
+func (fc *famCase) guard(op string, f func() string) {
+	if !fc.silent {
+		fc.c.Guard(op, f)
+		return
+	}
+	defer func() {
+		if r := recover(); r != nil {
+			fc.c.Fail("panic", fmt.Sprintf("op %q panicked: %v", op, r))
+		}
+	}()
+	_ = f()
 }
 
 func showFiles(fs []FileInfo) string {
@@ -457,7 +491,7 @@ func (fc *famCase) flush(entries []Entry, record bool) {
 		words = append(words, fmt.Sprintf("%d=%s", e.Metric, e.Block.String()))
 	}
 	op := "flush " + strings.Join(words, " ")
-	fc.c.Guard(op, func() string {
+	fc.guard(op, func() string {
 		if err := fc.env.flush(entries); err != nil {
 			return "err flush"
 		}
@@ -584,7 +618,15 @@ func (fc *famCase) compact(r *rand.Rand, threshold int, maxMode string, optMax u
 	if optMax > 0 {
 		max = optMax
 	}
-	if maxMode == "mid" && len(keys) >= 2 {
+	emptyOut := false
+	for _, k := range keys {
+		if sizes[k] <= 0 {
+			// the real merger wrote nothing for a key whose inputs all have series: every series was dropped
+			c.Fail("merge-output-empty", fmt.Sprintf("dry-run merge of metric %d over the picked files produced a %d-byte block", k, sizes[k]))
+			emptyOut = true
+		}
+	}
+	if maxMode == "mid" && len(keys) >= 2 && !emptyOut {
 		// close the first output file after a random key that is not the last one
 		j := r.Intn(len(keys) - 1)
 		cum := 0
@@ -664,7 +706,7 @@ func sameFile(f FileInfo, in []FileInfo) bool {
 func (fc *famCase) view(metric uint32) {
 	c := fc.c
 	op := fmt.Sprintf("view %d", metric)
-	c.Guard(op, func() string {
+	fc.guard(op, func() string {
 		blocks, err := fc.env.load(metric)
 		if err != nil {
 			return "err load"
@@ -788,8 +830,10 @@ func newFamCase(c *core.Ctx, optMax uint32, threshold int) *famCase {
 		c.Fail("harness-open-family", err.Error())
 		return nil
 	}
-	c.Op("reset", "ok")
-	return &famCase{c: c, env: env, schemas: map[uint32]schema{}, flushed: map[uint32]map[cell][]int64{},
+	if !silentFamilies {
+		c.Op("reset", "ok")
+	}
+	return &famCase{c: c, env: env, silent: silentFamilies, schemas: map[uint32]schema{}, flushed: map[uint32]map[cell][]int64{},
 		series: map[uint32]map[uint32]bool{}, fields: map[uint32]map[int]int{}}
 }
 
@@ -827,8 +871,15 @@ func (a area) runFamilyCase(c *core.Ctx, r *rand.Rand) {
 			pool = pool[:4]
 		}
 	}
+	nevers := map[uint32]map[uint32]map[int]bool{}
 	for _, m := range metricIDs {
 		fc.schemas[m] = genSchema(r, region)
+		if r.Intn(2) == 0 {
+			nevers[m] = genNever(r, fc.schemas[m], pool)
+			if len(nevers[m]) > 0 {
+				c.Branch("fam/series-never-reports-a-field")
+			}
+		}
 	}
 	steps := 2 + r.Intn(7)
 	compactions, splitFailed := 0, false
@@ -858,11 +909,11 @@ func (a area) runFamilyCase(c *core.Ctx, r *rand.Rand) {
 			if r.Intn(3) == 0 && len(metricIDs) > 1 {
 				continue
 			}
-			entries = append(entries, Entry{Metric: m, Block: genBlock(r, fc.schemas[m], pool, sp, r.Intn(3))})
+			entries = append(entries, Entry{Metric: m, Block: genBlock(r, fc.schemas[m], pool, sp, r.Intn(3), nevers[m])})
 		}
 		if len(entries) == 0 {
 			m := metricIDs[r.Intn(len(metricIDs))]
-			entries = append(entries, Entry{Metric: m, Block: genBlock(r, fc.schemas[m], pool, sp, r.Intn(3))})
+			entries = append(entries, Entry{Metric: m, Block: genBlock(r, fc.schemas[m], pool, sp, r.Intn(3), nevers[m])})
 		}
 		if r.Intn(12) == 0 && len(entries) > 1 {
 			// an out-of-order key: ignored by the table builder
@@ -988,6 +1039,115 @@ func (a area) scenarioNested(c *core.Ctx) {
 	fc.viewAll()
 }
 
+// scenarioFieldShift: a multi-field metric whose series report different field subsets; the merger
+// must still write one (possibly empty) field entry per target field of every series, in order.
+func (a area) scenarioFieldShift(c *core.Ctx) {
+	mk := func(start, end int, fields []FieldMeta, series map[uint32]map[int]map[int]int64) *Block {
+		b := &Block{Fields: fields, Start: start, End: end}
+		var ids []uint32
+		for id := range series {
+			ids = append(ids, id)
+		}
+		sort.Slice(ids, func(i, j int) bool { return ids[i] < ids[j] })
+		for _, id := range ids {
+			b.Series = append(b.Series, SeriesEntry{ID: id, Fields: series[id]})
+		}
+		return b
+	}
+	f123 := []FieldMeta{{1, tySum}, {2, tyMin}, {3, tyMax}}
+	// series 4 never reports field 2, series 9 never reports field 1, series 65540 never reports field 3
+	A := mk(3, 9, f123, map[uint32]map[int]map[int]int64{
+		4:     {1: {3: 10, 5: 11}, 3: {4: 30}},
+		9:     {2: {3: 20}, 3: {3: 31, 9: 32}},
+		65540: {1: {6: 12}, 2: {6: 21}},
+	})
+	B := mk(5, 12, []FieldMeta{{3, tyMax}, {1, tySum}}, map[uint32]map[int]map[int]int64{
+		4:  {1: {5: 100}, 3: {12: 300}},
+		9:  {3: {5: 310}},
+		70: {1: {7: 101}, 3: {7: 301}},
+	})
+	// field 2 exists only in a file in which series 70 does not occur
+	C := mk(3, 4, []FieldMeta{{2, tyMin}}, map[uint32]map[int]map[int]int64{9: {2: {4: -5}}})
+	mergeOp(c, []*Block{A, B})
+	mergeOp(c, []*Block{B, A, C})
+	mergeOp(c, []*Block{C, B})
+	mergeOp(c, []*Block{A})
+	fc := newFamCase(c, 0, 0)
+	if fc == nil {
+		return
+	}
+	defer fc.env.close()
+	for _, b := range []*Block{A, B, C} {
+		fc.flush([]Entry{{Metric: 6, Block: b}}, true)
+	}
+	fc.viewAll()
+	fc.compact(c.Rng(7), 0, "huge", 0)
+	fc.viewAll()
+}
+
+// concurrentCompactions (thorough tier): several real families are compacted at the same time (the
+// storage node runs one compaction goroutine per family) and every one must come out as C03 says.
+// Shared mutable state between merge jobs (e.g. a package-level scratch buffer in the down-sampling
+// merge) shows up here as wrong values; no model counterpart, only the impl-side oracle speaks.
+func (a area) concurrentCompactions(c *core.Ctx, r *rand.Rand) {
+	silentFamilies = true
+	defer func() { silentFamilies = false }()
+	failRemap = func(key string, _ uint32) string { return "concurrent-compaction-" + key }
+	defer func() { failRemap = nil }()
+	const k = 4
+	var fcs []*famCase
+	defer func() {
+		for _, fc := range fcs {
+			fc.env.close()
+		}
+	}()
+	pool := []uint32{1, 2, 3, 5, 8, 13, 21, 34, 65536, 65537, 65540, 131072}
+	sc := schema{fields: []FieldMeta{{1, tySum}, {2, tyMin}, {3, tyMax}, {4, tyHist}}}
+	sp := slotPlan{lo: 0, hi: 120}
+	for i := 0; i < k; i++ {
+		fc := newFamCase(c, 0, 0)
+		if fc == nil {
+			return
+		}
+		fcs = append(fcs, fc)
+	}
+	for round := 0; round < 4; round++ {
+		for _, fc := range fcs {
+			for j := 0; j < 3; j++ {
+				fc.flush([]Entry{
+					{Metric: 1, Block: genBlock(r, sc, pool, sp, 2)},
+					{Metric: 2, Block: genBlock(r, sc, pool, sp, 0)},
+				}, true)
+			}
+		}
+		start := make(chan struct{})
+		done := make(chan string, k)
+		for _, fc := range fcs {
+			fc := fc
+			go func() {
+				<-start
+				err, p := fc.env.compact()
+				if err != nil || p != nil {
+					done <- fmt.Sprintf("err=%v panic=%v", err, p)
+					return
+				}
+				done <- ""
+			}()
+		}
+		close(start)
+		for range fcs {
+			if msg := <-done; msg != "" {
+				c.Fail("concurrent-compaction-failed", msg)
+			}
+		}
+		for _, fc := range fcs {
+			fc.viewAll()
+		}
+	}
+	c.Branch("fam/concurrent-compactions")
+	c.NonTrivial()
+}
+
 // F2 witness blocks (Props/C03.lean Neg.dA, dB, dC): single-field blocks as a memory database
 // flushes them when some series of the metric did not write in the flushed window.
 func deadA() *Block {
@@ -1108,6 +1268,10 @@ func (a area) Run(c *core.Ctx) error {
 			a.witnessDeadFirst(c)
 		case i == 6 && c.Tier == "thorough" && c.Seed%3 == 1:
 			a.realEngineWitness(c)
+		case i == 7:
+			a.scenarioFieldShift(c)
+		case i == 8 && c.Tier == "thorough":
+			a.concurrentCompactions(c, r)
 		case i%2 == 1:
 			a.runMergeCase(c, r)
 		default:
